@@ -7,24 +7,29 @@
 #include <vector>
 #include <stdint.h>
 #include <random>
+#include <unistd.h>
+#include <sys/wait.h>
 // std::random_device is an environment input: both the engine (--random-device) and this runtime return the value of VP_RANDOM_DEVICE
 namespace std { void random_device::_M_init(const std::string&) {} void random_device::_M_fini() {} random_device::result_type random_device::_M_getval() { const char* e = getenv("VP_RANDOM_DEVICE"); return e ? (result_type)strtoul(e, 0, 10) : 0; } }
 extern "C" void harness();
 static std::vector<std::pair<std::string, uint64_t>> g_in; static size_t g_idx = 0; static uint64_t g_digest = 1469598103934665603ULL; static int g_asserts = 0, g_failed = 0;
 static void dig(const void* p, size_t n) { const unsigned char* c = (const unsigned char*)p; for (size_t i = 0; i < n; i++) { g_digest ^= c[i]; g_digest *= 1099511628211ULL; } }
+// bound-sizing aid (never used by ./check): VP_NATIVE_RANDOM=<seed> draws every input at random inside its declared range instead of reading a file
+static bool g_rand = false; static std::mt19937_64 g_rng;
 static uint64_t next(const char* name) {
+  if (g_rand) { g_idx++; return g_rng(); }
   std::string want = std::string(name) + "#" + std::to_string(g_idx);
   if (g_idx >= g_in.size()) { printf("VP-NATIVE-DESYNC input list exhausted at %s\n", want.c_str()); fflush(stdout); exit(4); }
   if (g_in[g_idx].first != want) { printf("VP-NATIVE-DESYNC expected %s got %s\n", want.c_str(), g_in[g_idx].first.c_str()); fflush(stdout); exit(4); }
   return g_in[g_idx++].second;
 }
 extern "C" {
-int vp_int(const char* name, int lo, int hi) { int v = (int)(uint32_t)next(name); if (v < lo || v > hi) { printf("VP-NATIVE-ASSUME-FAILED range %s\n", name); fflush(stdout); exit(77); } return v; }
+int vp_int(const char* name, int lo, int hi) { int v = (int)(uint32_t)next(name); if (g_rand) v = lo + (int)((uint32_t)v % (uint32_t)(hi - lo + 1)); if (v < lo || v > hi) { printf("VP-NATIVE-ASSUME-FAILED range %s\n", name); fflush(stdout); exit(77); } return v; }
 unsigned vp_u32(const char* name) { return (unsigned)next(name); }
 uint64_t vp_u64(const char* name) { return next(name); }
 double vp_double(const char* name) { uint64_t u = next(name); double d; memcpy(&d, &u, 8); return d; }
 float vp_float(const char* name) { uint32_t u = (uint32_t)next(name); float f; memcpy(&f, &u, 4); return f; }
-double vp_double_grid(const char* name, double lo, double step, int count) { uint32_t i = (uint32_t)next(name); if (i >= (uint32_t)count) { printf("VP-NATIVE-ASSUME-FAILED grid %s\n", name); fflush(stdout); exit(77); } return lo + (double)(int)i * step; }
+double vp_double_grid(const char* name, double lo, double step, int count) { uint32_t i = (uint32_t)next(name); if (g_rand) i %= (uint32_t)count; if (i >= (uint32_t)count) { printf("VP-NATIVE-ASSUME-FAILED grid %s\n", name); fflush(stdout); exit(77); } return lo + (double)(int)i * step; }
 void vp_assume(bool c) { if (!c) { printf("VP-NATIVE-ASSUME-FAILED\n"); fflush(stdout); exit(77); } }
 void vp_assert(bool c, const char* label) { g_asserts++; dig(label, strlen(label)); unsigned char b = c; dig(&b, 1); if (!c) { g_failed++; printf("VP-NATIVE-ASSERT-FAILED %s\n", label); fflush(stdout); } }
 void vp_reach(const char*) {}
@@ -33,6 +38,14 @@ int vp_is_symbolic(void) { return 0; }
 int vp_fork_int(int v) { return v; }
 }
 int main(int argc, char** argv) {
+  if (const char* r = getenv("VP_NATIVE_RANDOM")) {   // "<first seed>:<count>": one forked child per seed, tally printed at the end
+    unsigned long long s0 = strtoull(r, 0, 10), cnt = 1; if (const char* c = strchr(r, ':')) cnt = strtoull(c + 1, 0, 10);
+    unsigned long long ok = 0, failed = 0, crashed = 0, disc = 0; long long firstBad = -1;
+    for (unsigned long long t = s0; t < s0 + cnt; t++) { fflush(stdout); pid_t pid = fork();
+      if (pid == 0) { g_rand = true; g_rng.seed(t); if (!getenv("VP_NATIVE_VERBOSE")) { freopen("/dev/null", "w", stdout); freopen("/dev/null", "w", stderr); } harness(); fflush(stdout); _exit(g_failed ? 1 : 0); }
+      int st = 0; waitpid(pid, &st, 0); int e = WIFEXITED(st) ? WEXITSTATUS(st) : 200;
+      if (e == 0) ok++; else if (e == 77) disc++; else if (e == 1) { failed++; if (firstBad < 0) firstBad = (long long)t; } else { crashed++; if (firstBad < 0) firstBad = (long long)t; } }
+    printf("ok=%llu failed=%llu crashed=%llu discarded(assume)=%llu first-bad-seed=%lld\n", ok, failed, crashed, disc, firstBad); return 0; }
   if (argc < 2) { fprintf(stderr, "usage: %s replay-file\n", argv[0]); return 2; }
   FILE* f = fopen(argv[1], "r"); if (!f) { perror("replay file"); return 2; }
   char nm[256]; unsigned long long v; while (fscanf(f, "%255s %llu", nm, &v) == 2) g_in.push_back({nm, (uint64_t)v}); fclose(f);
